@@ -35,6 +35,11 @@ def run(chk, cases, timeout):
         for k in (0, 1):
             runs.append({t["id"]: t for t in sc.record(chk, cases, timeout, fresh=True)})
         both = [cid for cid in runs[0] if cid in runs[1] and not runs[0][cid]["ctor_error"] and not runs[1][cid]["ctor_error"]]
+        # a Z3 query that ran into its wall-clock limit makes a run depend on machine load (z3_solve retries with
+        # shuffled formulas and fresh random seeds): such pairs are not judged
+        timing = [cid for cid in both if runs[0][cid].get("z3_unknowns", 0) or runs[1][cid].get("z3_unknowns", 0)]
+        chk.cov["pairs_with_z3_timeouts_unjudged"] = len(timing)
+        both = [cid for cid in both if cid not in timing]
         chk.cov["unjudged"] = len(cases) - len(both)
         v = [sc.validate(chk, wd, [runs[k][cid] for cid in both], tag="r%d" % k) for k in (0, 1)]
         pairs = [{"id": cid, "a": outcomes(runs[0][cid]), "b": outcomes(runs[1][cid])} for cid in both]
@@ -72,6 +77,7 @@ def main(tier):
     chk.cov["rule"] = ("cases as in C01 (catalogue/schema constraints x random settings), each run twice in fresh interpreters with PYTHONHASHSEED=0 and "
                        "random.seed(seed); an evaluation = one pair of corresponding solve() calls; non-trivial = pair with at least one solution")
     chk.assumptions = ["the virtual clock is identical in both runs (wall-clock timeouts are outside the statement)",
+                       "pairs in which some Z3 query hit its wall-clock limit (z3.unknown) are unjudged: the retry logic of z3_solve is timing-dependent by design",
                        "pairs in which a run exceeds the wall-clock cap are unjudged"]
     rnd = random.Random(chk.seed)
     cases = sc.formula_cases(chk, P["plan"], P["calls"], rnd)
